@@ -254,6 +254,9 @@ func (w *World) Run(sc *Scenario, o RunOpts) *Outcome {
 	if wd == 0 {
 		wd = 20 * time.Second
 	}
+	if sc.WatchdogS > 0 && w.Watchdog == 0 {
+		wd = time.Duration(sc.WatchdogS) * time.Second
+	}
 	var werr error
 	select {
 	case werr = <-done:
@@ -400,7 +403,7 @@ func (o *Outcome) Crashed() (bool, string) {
 	if i := strings.Index(se, "panic: "); i >= 0 && strings.Contains(se, "goroutine ") {
 		return true, "panic"
 	}
-	if strings.Contains(se, "fatal error: ") && strings.Contains(se, "goroutine ") {
+	if strings.Contains(se, "fatal error: ") && (strings.Contains(se, "goroutine ") || strings.Contains(se, "runtime")) {
 		return true, "fatal"
 	}
 	if strings.Contains(se, "\ngoroutine ") && strings.Contains(se, "[running]") {
